@@ -291,5 +291,10 @@ func (c *Collector) evictStale() {
 			keys = append(keys, HotKey{Name: key.Name, Counter: &cpy})
 		}
 	}
+	// Only the counters which are not updated in current minute are halved,
+	// so restore the descending order.
+	sort.SliceStable(keys, func(i, j int) bool {
+		return keys[i].Counter.Value() > keys[j].Counter.Value()
+	})
 	c.keys = keys
 }
